@@ -226,6 +226,28 @@ func init() {
 			} else {
 				r.OK(k, "clock advanced on every exit after n was computed", "every success exit passes SetLastRewardClaimTime", r.P(quo))
 			}
+			// exits BEFORE n is computed: the hook was entered because an interval has elapsed (or the clock was never
+			// set); leaving without counting the intervals and without setting the clock freezes it, and the first
+			// deduction afterwards charges the whole idle time to stake that arrived in the meantime (seed round 9)
+			via := append([]ssa.Instruction{quo}, sets...)
+			nExits := 0
+			for _, b := range fn.Blocks {
+				if len(b.Instrs) == 0 {
+					continue
+				}
+				ret, ok := b.Instrs[len(b.Instrs)-1].(*ssa.Return)
+				if !ok || len(ret.Results) == 0 {
+					continue
+				}
+				if fa.provablyNonNil(ret.Results[len(ret.Results)-1], ret, 0) {
+					continue // error exit
+				}
+				nExits++
+				if trail := fa.MustPassThrough(nil, ret, via); trail != nil {
+					r.Bad(k, "no success exit before the intervals are counted leaves the clock untouched", "the take-rate hook returns successfully without counting the elapsed intervals and without setting the clock: while that exit is taken the clock stands still, and the next deduction compounds over the whole time, charging stake for intervals during which it was not staked", trail, r.P(ret))
+				}
+			}
+			r.Check(nExits >= 2, k, "success exits examined", fmt.Sprintf("%d success exits: each passes the interval count or a clock write", nExits), fmt.Sprintf("only %d success exits found", nExits))
 		}})
 
 	register(&Rule{ID: "C14.clamp", Props: []string{"C14", "C17"}, Floor: 3,
